@@ -15,7 +15,9 @@ import common
 RULE = ('(1) step-wise consumption of 2-4 simultaneously open REAL traversal iterators (ancestors/descendants/parents/children, with '
         'and without the source, both graph classes) under every interleaving of two iterators with <= 4 '
         'steps each and random interleavings of up to four, with complete queries sprinkled in between: the sequence each iterator '
-        'yields must equal its standalone sequence, and the standalone multiset must equal the Lean model\'s; (2) 2-4 reader threads '
+        'yields must equal its standalone sequence, and the standalone multiset must equal the Lean model\'s; random histories of '
+        'predicates, traversals abandoned after k elements, index-API peeks and complete traversals on one graph, every complete answer '
+        'compared with the model; (2) 2-4 reader threads '
         'each draining its own iterator on the shared graph (switch interval 1e-6 s), 200 rounds, and 4 threads released by a barrier '
         'on a graph nobody has queried yet (fresh graph every round, answers compared with a sequentially queried twin), and a '
         'deterministic single-pre-emption scan: the first query on a fresh graph is stopped after exactly k executed lines of library '
@@ -127,6 +129,60 @@ def iterator_scenarios(ctx, rng, factory, edges, exhaustive):
                                                       'impl_interleaved': got, 'impl_standalone': want, 'complete_queries_that_differ': bad_eval,
                                                       'theorem': 'Hpv.Props.C12.next_local / step_frame / eval_history_free'})
             return
+
+
+def graph_histories(ctx, rng, factory, edges, n_hist):
+    """random histories on ONE graph of: predicates (which may stop a traversal early), traversal iterators that are consumed for a
+    few elements and then ABANDONED, index-API calls, and complete traversals - every complete answer must equal the Lean model's"""
+    _, TermId, _, _ = gl._hp()
+    nodes = gl.nodes_of(edges)
+    specs = [(q, v, incl) for q in gl.QS for v in nodes for incl in (False, True)]
+    pairs = [(p, a, b) for p in gl.PREDS for a in nodes for b in nodes]
+    rep = gl.model_batch([(factory, edges, [['q', q, v, incl] for q, v, incl in specs] + [['pred', p, a, b] for p, a, b in pairs])])[0]
+    if 'answers' not in rep:
+        return
+    want_q = {s: sorted(a.get('ok', [])) for s, a in zip(specs, rep['answers'][:len(specs)])}
+    want_p = {s: a.get('ok') for s, a in zip(pairs, rep['answers'][len(specs):])}
+    name = {'parentOf': 'is_parent_of', 'childOf': 'is_child_of', 'ancestorOf': 'is_ancestor_of', 'descendantOf': 'is_descendant_of'}
+    for h in range(n_hist):
+        g = gl.build_impl(factory, edges)
+        hist = []
+        ctx.case(['graph-history', factory, edges, h], True, f'graph.query-histories.{factory}', sample={'factory': factory, 'edges': edges[:6]} if h == 0 else None)
+        for _ in range(rng.randrange(4, 18)):
+            r = rng.random()
+            try:
+                if r < 0.35:
+                    p, a, b = rng.choice(pairs)
+                    hist.append(['pred', p, a, b])
+                    got = getattr(g, name[p])(TermId.from_curie(a), TermId.from_curie(b))
+                    if bool(got) != want_p[(p, a, b)]:
+                        raise AssertionError(f'{name[p]}({a}, {b}) = {got}, model {want_p[(p, a, b)]}')
+                elif r < 0.6:
+                    s = rng.choice(specs)
+                    k = rng.randrange(0, 3)
+                    hist.append(['abandon-after', k] + list(s))
+                    it = open_iter(g, s)
+                    for _ in range(k):
+                        next(it, END)
+                    del it
+                elif r < 0.7 and hasattr(g, 'node_to_idx'):
+                    v = rng.choice(nodes)
+                    hist.append(['idx-ancestors-first-element', v])
+                    next(iter(g.get_ancestor_idx(g.node_to_idx(TermId.from_curie(v)))), None)
+                else:
+                    s = rng.choice(specs)
+                    hist.append(['full'] + list(s))
+                    got = sorted(standalone(g, s))
+                    if got != want_q[s]:
+                        raise AssertionError(f'get_{s[0]}({s[1]}, include_source={s[2]}) = {got}, model {want_q[s]}')
+            except AssertionError as e:
+                ctx.violation(f'{factory}:history', {'case': {'kind': 'graph-history', 'factory': factory, 'edges': edges, 'history': hist},
+                                                     'impl': str(e), 'theorem': 'Hpv.Props.C12.eval_history_free'})
+                return
+            except Exception as e:  # noqa
+                ctx.violation(f'{factory}:history-raises', {'case': {'kind': 'graph-history', 'factory': factory, 'edges': edges, 'history': hist},
+                                                            'impl': f'{type(e).__name__}: {e}', 'theorem': 'Hpv.Props.C12.eval_history_free'})
+                return
 
 
 def thread_scenarios(ctx, rng, factory, edges, rounds):
@@ -592,6 +648,9 @@ def run(ctx):
     for _ in range(60 if thorough else 12):
         edges = gl.random_dag(rng, n=rng.randrange(4, 14))[0]
         iterator_scenarios(ctx, rng, rng.choice(gl.FACTORIES), edges, False)
+    for f in gl.FACTORIES:
+        for edges in fixed + [gl.random_dag(rng, n=rng.randrange(4, 9))[0] for _ in range(6 if thorough else 2)]:
+            graph_histories(ctx, rng, f, edges, 40 if thorough else 12)
     for f in gl.FACTORIES:
         thread_scenarios(ctx, rng, f, fixed[0], 200 if thorough else 60)
     for f in gl.FACTORIES:
